@@ -10,13 +10,14 @@
 //! observed result tells WHICH attempt produced it.
 use ibv::{Emitter, SplitMix64, Tier, drive};
 use ironbeam::helpers::cloud::{
-    BatchConfig, CloudIOExecutor, OperationBuilder, run_batch_operation, run_cloud_io_batch,
+    BatchConfig, CloudIOExecutor, OperationBuilder, OperationContext, run_batch_operation,
+    run_cloud_io_batch, run_with_context,
     run_cloud_io_paginated, run_cloud_io_with_retry, run_cloud_io_with_retry_and_timeout,
     run_paginated_operation, run_parallel, run_with_retry, run_with_timeout_and_retry,
 };
 use ironbeam::io::cloud::traits::{CloudIOError, CloudResult, ErrorKind};
 use ironbeam::io::cloud::utils::{
-    PaginationConfig, RetryConfig, batch_in_chunks, paginate, retry_with_backoff, with_timeout,
+    ConnectionPool, PaginationConfig, RetryConfig, batch_in_chunks, paginate, retry_with_backoff, with_timeout,
 };
 use serde_json::{Value, json};
 use std::sync::Mutex;
@@ -388,7 +389,46 @@ fn usable_timeout(t: u64, lo: u64) -> bool {
     t <= lo || t >= lo + GREY_MS
 }
 
+/// results of real-time rows computed ahead of time, several rows side by side (they mostly
+/// sleep); `run` takes them from here when present and computes them itself otherwise (replay)
+static PREFETCHED: std::sync::OnceLock<Mutex<std::collections::HashMap<String, Value>>> =
+    std::sync::OnceLock::new();
+
+type Pending = (&'static str, Value, bool, Vec<&'static str>);
+
+fn emit_prefetched(em: &mut Emitter, pending: Vec<Pending>, workers: usize) {
+    let cache = PREFETCHED.get_or_init(|| Mutex::new(std::collections::HashMap::new()));
+    let next = std::sync::atomic::AtomicUsize::new(0);
+    std::thread::scope(|sc| {
+        for _ in 0..workers {
+            sc.spawn(|| loop {
+                let i = next.fetch_add(1, std::sync::atomic::Ordering::SeqCst);
+                if i >= pending.len() {
+                    break;
+                }
+                let (kind, input, _, _) = &pending[i];
+                let r = std::panic::catch_unwind(std::panic::AssertUnwindSafe(|| run_real(kind, input)));
+                if let Ok(v) = r {
+                    cache.lock().unwrap().insert(format!("{kind}{input}"), v);
+                }
+            });
+        }
+    });
+    for (kind, input, nontrivial, tags) in pending {
+        em.case(kind, input, nontrivial, &tags);
+    }
+}
+
 fn run(kind: &str, input: &Value) -> Value {
+    if let Some(cache) = PREFETCHED.get() {
+        if let Some(v) = cache.lock().unwrap().remove(&format!("{kind}{input}")) {
+            return v;
+        }
+    }
+    run_real(kind, input)
+}
+
+fn run_real(kind: &str, input: &Value) -> Value {
     match kind {
         // in = [cfg, [timeout_ms of the retrying wrappers, timeout_ms of the single-call ones],
         // script, busy, slack_us]: every fixed wrapper at once (one thread each; they mostly
@@ -725,6 +765,76 @@ fn run(kind: &str, input: &Value) -> Value {
             let n = *called.lock().unwrap();
             json!([n, res_json(r)])
         }
+        // in = [name, preset retry_count, preset metadata [[k, v]..], actions, sym]; an action is
+        // [0] = increment_retry() or [1, k, v] = add_metadata("k<k>", "v<v>"), performed by the
+        // closure on its &mut OperationContext before it answers `sym`.
+        // out = ["ok", calls, value, name, retry_count, start_time untouched, [[k, v]..] sorted]
+        //     | ["err", calls, class, origin]          (a u32 overflow panics: ["panic"])
+        "context" => {
+            let name = input[0].as_i64().unwrap();
+            let mut ctx = OperationContext::new(format!("n{name}"));
+            ctx.retry_count = input[1].as_u64().unwrap() as u32;
+            for kv in input[2].as_array().unwrap() {
+                ctx.add_metadata(format!("k{}", kv[0]), format!("v{}", kv[1]));
+            }
+            let actions = input[3].as_array().unwrap().clone();
+            let sym = input[4].as_i64().unwrap();
+            let start = ctx.start_time;
+            let mut calls = 0i64;
+            let r = run_with_context(ctx, |c: &mut OperationContext| {
+                calls += 1;
+                for a in &actions {
+                    if a[0].as_i64().unwrap() == 0 {
+                        c.increment_retry();
+                    } else {
+                        c.add_metadata(format!("k{}", a[1]), format!("v{}", a[2]));
+                    }
+                }
+                op_result(sym, 0)
+            });
+            match r {
+                Ok((v, c)) => {
+                    let num = |s: &str| s[1..].parse::<i64>().unwrap();
+                    let mut meta: Vec<(i64, i64)> =
+                        c.metadata.iter().map(|(k, v)| (num(k), num(v))).collect();
+                    meta.sort_unstable();
+                    let meta: Vec<Value> = meta.iter().map(|(k, v)| json!([k, v])).collect();
+                    json!(["ok", calls, v, num(&c.operation_name), c.retry_count,
+                           c.start_time == start, meta])
+                }
+                Err(e) => json!(["err", calls, code_of(&e.kind), origin_of(&e)]),
+            }
+        }
+        // in = [max_size, ops] on a ConnectionPool<i64>; op j is [0, sym] = acquire with a `create`
+        // answering sym (Ok carries 1000 + j), [1, x] = release(x), [2] = size().
+        // out = one entry per op: [0, class, value | origin, create called] | [1] | [2, size]
+        "pool" => {
+            let max = input[0].as_u64().unwrap() as usize;
+            let mut pool: ConnectionPool<i64> = ConnectionPool::new(max);
+            let mut out = Vec::new();
+            for (j, op) in input[1].as_array().unwrap().iter().enumerate() {
+                match op[0].as_i64().unwrap() {
+                    0 => {
+                        let sym = op[1].as_i64().unwrap();
+                        let mut created = false;
+                        let r = pool.acquire(|| {
+                            created = true;
+                            op_result(sym, j).map(|v| v + 1000)
+                        });
+                        out.push(match r {
+                            Ok(v) => json!([0, 0, v, created]),
+                            Err(e) => json!([0, code_of(&e.kind), origin_of(&e), created]),
+                        });
+                    }
+                    1 => {
+                        pool.release(op[1].as_i64().unwrap());
+                        out.push(json!([1]));
+                    }
+                    _ => out.push(json!([2, pool.size()])),
+                }
+            }
+            Value::Array(out)
+        }
         _ => json!(["bad-kind"]),
     }
 }
@@ -1037,6 +1147,104 @@ fn generate(seed: u64, tier: Tier, em: &mut Emitter) {
         em.case("parallel", json!([m]), m.len() >= 2, &["exhaustive", "parallel"]);
     }
 
+    // 7b. OperationContext + run_with_context: every action sequence of length <= 3 over
+    //     {increment_retry, add k1, add k2, add k1 again with another value} x result symbol x
+    //     starting retry_count (0, near u32::MAX) x preset metadata; then longer random ones
+    {
+        let acts = [json!([0]), json!([1, 1, 10]), json!([1, 2, 20]), json!([1, 1, 11])];
+        let mut seqs: Vec<Vec<Value>> = vec![vec![]];
+        let mut cur: Vec<Vec<Value>> = vec![vec![]];
+        for _ in 0..3 {
+            let mut next = Vec::new();
+            for q in &cur {
+                for x in &acts {
+                    let mut t = q.clone();
+                    t.push(x.clone());
+                    next.push(t);
+                }
+            }
+            seqs.extend(next.iter().cloned());
+            cur = next;
+        }
+        let top = u64::from(u32::MAX);
+        let mut k = 0u64;
+        for q in &seqs {
+            for sym in [0i64, 1, 7] {
+                for preset in [0u64, top - 2] {
+                    k += 1;
+                    let meta = if k % 2 == 0 { json!([]) } else { json!([[1, 5], [3, 6]]) };
+                    em.case("context", json!([k % 5, preset, meta, q, sym]), q.len() >= 2,
+                            &["exhaustive", "context"]);
+                }
+            }
+        }
+        for (preset, n) in [(top - 1, 1usize), (top - 1, 2), (top, 0), (top, 1), (top - 3, 4)] {
+            let q: Vec<Value> = (0..n).map(|_| json!([0])).collect();
+            for sym in [0i64, 4] {
+                em.case("context", json!([9, preset, [], q, sym]), true, &["boundary", "context", "overflow"]);
+            }
+        }
+        let nc = if thorough { 1500 } else { 150 };
+        for _ in 0..nc {
+            let n = rng.below(25) as usize;
+            let q: Vec<Value> = (0..n)
+                .map(|_| if rng.chance(1, 3) { json!([0]) } else { json!([1, rng.below(6), rng.below(50)]) })
+                .collect();
+            let meta: Vec<Value> = (0..rng.below(4)).map(|_| json!([rng.below(6), rng.below(50)])).collect();
+            let preset = if rng.chance(1, 4) { top - rng.below(12) } else { rng.below(1000) };
+            em.case("context", json!([rng.below(100), preset, meta, q, rng.range(0, 11)]), n >= 2,
+                    &["random", "context"]);
+        }
+    }
+
+    // 7c. ConnectionPool: every op sequence of length <= 4 over {acquire (create Ok), acquire
+    //     (create fails), release, size} x max_size 0..2; longer random ones; max_size whose
+    //     capacity overflows
+    {
+        let mut seqs: Vec<Vec<i64>> = vec![vec![]];
+        let mut cur: Vec<Vec<i64>> = vec![vec![]];
+        let plen = if thorough { 5 } else { 4 };
+        for _ in 0..plen {
+            let mut next = Vec::new();
+            for q in &cur {
+                for x in 0..4i64 {
+                    let mut t = q.clone();
+                    t.push(x);
+                    next.push(t);
+                }
+            }
+            seqs.extend(next.iter().cloned());
+            cur = next;
+        }
+        let op_json = |j: usize, x: i64| -> Value {
+            match x {
+                0 => json!([0, 0]),
+                1 => json!([0, 1 + (j as i64 % 11)]),
+                2 => json!([1, 10 * j as i64 + 1]),
+                _ => json!([2]),
+            }
+        };
+        for q in &seqs {
+            let ops: Vec<Value> = q.iter().enumerate().map(|(j, &x)| op_json(j, x)).collect();
+            for max in 0..3u64 {
+                em.case("pool", json!([max, ops]), q.len() >= 2 && q.contains(&2), &["exhaustive", "pool"]);
+            }
+        }
+        let npool = if thorough { 1000 } else { 100 };
+        for _ in 0..npool {
+            let n = rng.below(41) as usize;
+            let ops: Vec<Value> = (0..n)
+                .map(|j| op_json(j, *rng.pick(&[0i64, 0, 1, 2, 2, 2, 3])))
+                .collect();
+            let max = *rng.pick(&[0u64, 1, 2, 3, 4, 8, 16, 65_536]);
+            em.case("pool", json!([max, ops]), n >= 2, &["random", "pool"]);
+        }
+        // 8 * max_size > isize::MAX: Vec::with_capacity panics (capacity overflow)
+        for max in [1u64 << 60, (1 << 60) + 1, 1 << 61] {
+            em.case("pool", json!([max, [[2]]]), true, &["boundary", "pool", "capacity-overflow"]);
+        }
+    }
+
     // 8. real sleeping, a handful of cases with millisecond delays (see props/C18.json)
     let f = |s: &str| json!({"f": s});
     let timing: Vec<Value> = vec![
@@ -1079,6 +1287,7 @@ fn generate(seed: u64, tier: Tier, em: &mut Emitter) {
             }
         };
         let cj = |c: Cfg| json!([c.initial, c.cap, fj(c.mult), c.budget]);
+        let mut pend: Vec<Pending> = Vec::new();
         let slack = 8000;
         let big = 1u64 << 61;
         let cfgs: Vec<Cfg> = vec![
@@ -1119,10 +1328,10 @@ fn generate(seed: u64, tier: Tier, em: &mut Emitter) {
                 let nontrivial = b >= 2 && (1..=4).contains(&s[0]);
                 let (a, lo) = plan(c, s, &[], true);
                 // (a) no time inside the calls, ample timeout
-                em.case("waits", json!([cj(c), [3_600_000, 3_600_000], s, [], slack]), nontrivial, &["waits", "realtime"]);
+                pend.push(("waits", json!([cj(c), [3_600_000, 3_600_000], s, [], slack]), nontrivial, vec!["waits", "realtime"]));
                 // (b) the waits alone reach the timeout (clock at least lo, plus a tick)
-                em.case("waits", json!([cj(c), [lo, 0], s, [], slack]), nontrivial,
-                        &["waits", "realtime", "wait-overrun"]);
+                pend.push(("waits", json!([cj(c), [lo, 0], s, [], slack]), nontrivial,
+                        vec!["waits", "realtime", "wait-overrun"]));
                 k += 1;
                 match k % 3 {
                     0 => {
@@ -1131,8 +1340,8 @@ fn generate(seed: u64, tier: Tier, em: &mut Emitter) {
                         let (_, lo2) = plan(c, s, &busy, true);
                         let t = 2 * a + (lo2 - 2 * a) / 2;
                         if usable_timeout(t, lo2) {
-                            em.case("waits", json!([cj(c), [t, 2], s, busy, slack]), nontrivial,
-                                    &["waits", "realtime", "busy"]);
+                            pend.push(("waits", json!([cj(c), [t, 2], s, busy, slack]), nontrivial,
+                                    vec!["waits", "realtime", "busy"]));
                         }
                     }
                     1 => {
@@ -1140,27 +1349,27 @@ fn generate(seed: u64, tier: Tier, em: &mut Emitter) {
                         let mut busy: Vec<u64> = vec![0; a as usize];
                         busy[a as usize - 1] = 6;
                         let (_, lo2) = plan(c, s, &busy, true);
-                        em.case("waits", json!([cj(c), [lo2 + GREY_MS + 50, busy[0] + GREY_MS], s, busy, slack]), nontrivial,
-                                &["waits", "realtime", "busy"]);
+                        pend.push(("waits", json!([cj(c), [lo2 + GREY_MS + 50, busy[0] + GREY_MS], s, busy, slack]), nontrivial,
+                                vec!["waits", "realtime", "busy"]));
                     }
                     _ => {
                         // (e) a slow first call, the timeout one ms short of the total
                         let mut busy: Vec<u64> = vec![0; a as usize];
                         busy[0] = 5;
                         let (_, lo2) = plan(c, s, &busy, true);
-                        em.case("waits", json!([cj(c), [lo2 - 1, 4], s, busy, slack]), nontrivial,
-                                &["waits", "realtime", "busy"]);
+                        pend.push(("waits", json!([cj(c), [lo2 - 1, 4], s, busy, slack]), nontrivial,
+                                vec!["waits", "realtime", "busy"]));
                     }
                 }
             }
         }
         // RetryConfig::default() and struct update from it (100 ms, 200 ms: two rows only)
-        em.case("waits", json!([[null, null, null, 2], [50, 0], [3, 0], [], slack]), true,
-                &["waits", "realtime", "default-config"]);
-        em.case("waits", json!([[null, null, null, null], [3_600_000, 3_600_000], [4, 1, 0], [], slack]), true,
-                &["waits", "realtime", "default-config"]);
-        em.case("waits", json!([[7, null, null, null], [20, 0], [4, 1, 0], [], slack]), true,
-                &["waits", "realtime", "default-config"]);
+        pend.push(("waits", json!([[null, null, null, 2], [50, 0], [3, 0], [], slack]), true,
+                vec!["waits", "realtime", "default-config"]));
+        pend.push(("waits", json!([[null, null, null, null], [3_600_000, 3_600_000], [4, 1, 0], [], slack]), true,
+                vec!["waits", "realtime", "default-config"]));
+        pend.push(("waits", json!([[7, null, null, null], [20, 0], [4, 1, 0], [], slack]), true,
+                vec!["waits", "realtime", "default-config"]));
         // seeded random rows
         let nw = if thorough { 400 } else { 40 };
         let mut made = 0;
@@ -1198,8 +1407,8 @@ fn generate(seed: u64, tier: Tier, em: &mut Emitter) {
             }
             made += 1;
             let nontrivial = c.budget >= 2 && !s.is_empty() && (1..=4).contains(&s[0]);
-            em.case("waits", json!([cj(c), [t, t1], s, busy, slack]), nontrivial,
-                    &["waits", "realtime", "random"]);
+            pend.push(("waits", json!([cj(c), [t, t1], s, busy, slack]), nontrivial,
+                    vec!["waits", "realtime", "random"]));
         }
 
         // 9b. builder construction sequences in real time: two retry configurations with
@@ -1224,9 +1433,10 @@ fn generate(seed: u64, tier: Tier, em: &mut Emitter) {
         for q in &seqs {
             let both = q.iter().any(|x| x[0] == 0) && q.iter().any(|x| x[0] == 1);
             for sc in [vec![1i64, 4, 2, 0], vec![3, 3, 3, 3, 3]] {
-                em.case("bwaits", json!([q, sc, [4], slack]), both, &["waits", "realtime", "builder-sequence"]);
+                pend.push(("bwaits", json!([q, sc, [4], slack]), both, vec!["waits", "realtime", "builder-sequence"]));
             }
         }
+        emit_prefetched(em, pend, 4);
     }
 }
 
